@@ -67,41 +67,44 @@ theorem v_total (hspf1 : 1 ≤ spf) (hb : 0 < o.bps) (hf32 : o.fats * spf < 4294
     rw [e16, e32]
     rintro ⟨h1, h2, _⟩
     rw [if_neg h1] at h2; exact h2 rfl
+  have e1 : (bpbOf o t ft spf spc).fats = o.fats := rfl
+  have e2 : (bpbOf o t ft spf spc).reserved = reservedFor ft := rfl
   unfold validateTotalSectors
-  rw [if_neg A, if_neg B, if_neg C, bpbOf_firstDataSector o t ft spf spc hb hf32 (by omega), ok_bind,
+  rw [if_neg A, if_neg B, if_neg C, bpbOf_sectorsPerFat, bpbOf_rootDirSectors _ _ _ _ _ hb, e1, e2,
+    if_neg (by omega), bpbOf_firstDataSector o t ft spf spc hb hf32 (by omega), ok_bind,
     bpbOf_totalSectors, if_neg (by omega)]
 
 theorem v_clusters (hspf1 : 1 ≤ spf) (hb : 0 < o.bps) (hf32 : o.fats * spf < 4294967296)
     (hfit : reservedFor ft + o.fats * spf + determineRootDirSectors o.rootEntries o.bps ft < t)
-    (ht : t < 4294967296) (hs : spc ≠ 0) (hb512 : 512 ≤ o.bps)
+    (ht : t < 4294967296) (hs : spc ≠ 0)
     (hfrom : ft = FatType.fromClusters
       ((t - (reservedFor ft + o.fats * spf + determineRootDirSectors o.rootEntries o.bps ft)) / spc))
     (hmax : (t - (reservedFor ft + o.fats * spf + determineRootDirSectors o.rootEntries o.bps ft)) / spc ≤ maxClusters ft) :
-    validateTotalClusters (bpbOf o t ft spf spc) =
-      if spf * o.bps * 8 < 4294967296 then .ok () else .error .panic := by
+    validateTotalClusters (bpbOf o t ft spf spc) = .ok () := by
   unfold validateTotalClusters
   rw [bpbOf_totalClusters o t ft spf spc hb hf32 hfit ht hs, ok_bind, bpbOf_isFat32 o t spf spc ft hspf1, ← hfrom]
   rw [if_neg (by cases ft <;> simp)]
-  have e2 : ¬ (ft = .fat32 ∧ 268435455 <
+  have e2 : ¬ (ft = .fat32 ∧ 268435444 <
       (t - (reservedFor ft + o.fats * spf + determineRootDirSectors o.rootEntries o.bps ft)) / spc) := by
     rintro ⟨rfl, h⟩
     simp only [maxClusters] at hmax
     omega
   rw [if_neg e2]
-  unfold usableFatEntries
-  rw [bpbOf_sectorsPerFat]
-  have e3 : (bpbOf o t ft spf spc).bps = o.bps := rfl
-  rw [e3]
-  by_cases hov : spf * o.bps * 8 < 4294967296
-  · rw [if_pos hov, chkMul32_of_lt (by omega), ok_bind, chkMul32_of_lt hov, ok_bind]
-    have h4096 : 4096 ≤ spf * o.bps * 8 := by
-      have : 1 * 512 ≤ spf * o.bps := Nat.mul_le_mul hspf1 hb512
-      omega
-    rw [chkSub_of_le (by cases ft <;> simp only [FatType.bits] <;> omega), ok_bind]
-  · rw [if_neg hov]
-    by_cases hov1 : spf * o.bps < 4294967296
-    · rw [chkMul32_of_lt hov1, ok_bind, chkMul32_of_ge hov, err_bind, err_bind]
-    · rw [chkMul32_of_ge hov1, err_bind, err_bind]
+  have e3 : ¬ (decide (ft = .fat32) = true ∧ ((bpbOf o t ft spf spc).rootCluster < 2 ∨
+      (t - (reservedFor ft + o.fats * spf + determineRootDirSectors o.rootEntries o.bps ft)) / spc ≤
+        (bpbOf o t ft spf spc).rootCluster - 2)) := by
+    rintro ⟨h32, h⟩
+    simp only [decide_eq_true_eq] at h32
+    subst h32
+    have er : (bpbOf o t .fat32 spf spc).rootCluster = 2 := rfl
+    rw [er] at h
+    have : 65525 ≤ (t - (reservedFor .fat32 + o.fats * spf + determineRootDirSectors o.rootEntries o.bps .fat32)) / spc := by
+      generalize (t - (reservedFor .fat32 + o.fats * spf + determineRootDirSectors o.rootEntries o.bps .fat32)) / spc = cl at hfrom
+      unfold FatType.fromClusters at hfrom
+      repeat' split at hfrom
+      all_goals first | omega | cases hfrom
+    omega
+  rw [if_neg e3]
 
 /-- `validate` on the assembled BPB: everything passes except, possibly, the overflowing FAT-capacity product -/
 theorem validateBpb_bpbOf
@@ -113,7 +116,7 @@ theorem validateBpb_bpbOf
     (hfrom : ft = FatType.fromClusters
       ((t - (reservedFor ft + o.fats * spf + determineRootDirSectors o.rootEntries o.bps ft)) / spc))
     (hmax : (t - (reservedFor ft + o.fats * spf + determineRootDirSectors o.rootEntries o.bps ft)) / spc ≤ maxClusters ft) :
-    validateBpb (bpbOf o t ft spf spc) = if spf * o.bps * 8 < 4294967296 then .ok () else .error .panic := by
+    validateBpb (bpbOf o t ft spf spc) = .ok () := by
   have hb512 : 512 ≤ o.bps := by
     simp only [List.mem_cons, List.mem_nil_iff, or_false] at hbps; omega
   have hs0 : spc ≠ 0 := by
@@ -124,7 +127,7 @@ theorem validateBpb_bpbOf
     v_reserved o t spf spc ft hspf1, ok_bind, v_fats o t spf spc ft hfats, ok_bind,
     v_root o t spf spc ft hspf1 hroot, ok_bind, v_total o t spf spc ft hspf1 (by omega) hf32 hfit ht, ok_bind,
     v_spf o t spf spc ft hspf1, ok_bind,
-    v_clusters o t spf spc ft hspf1 (by omega) hf32 hfit ht hs0 hb512 hfrom hmax]
+    v_clusters o t spf spc ft hspf1 (by omega) hf32 hfit ht hs0 hfrom hmax]
 
 end
 
@@ -132,15 +135,12 @@ theorem bootOf_bpb (o : FormatOpts) (t : Nat) (ft : FatType) (spf spc : Nat) :
     (bootOf o t ft spf spc).bpb = bpbOf o t ft spf spc := rfl
 
 /-- from the layout to the final answer: with a sector size `validate` accepts, a non-empty root request for
-    FAT12/16 and a FAT that fits `u16` for FAT12/16, the result is the assembled boot sector — or a panic when
-    `sectors_per_fat * bytes_per_sector * 8` overflows `u32` -/
+    FAT12/16 and a FAT that fits `u16` for FAT12/16, the result is the assembled boot sector -/
 theorem formatChecked_of_layout {o : FormatOpts} {t : Nat} {L : FsLayout}
     (hacc : Accepted o) (ht : t < 4294967296) (hbps : o.bps ∈ [512, 1024, 2048, 4096])
     (hL : determineFsLayout o t = .ok L) (hroot : L.fatType ≠ .fat32 → o.rootEntries ≠ 0)
     (h16 : L.fatType ≠ .fat32 → L.spf ≤ 65535) :
-    formatChecked o t =
-      if L.spf * o.bps * 8 < 4294967296 then .ok (bootOf o t L.fatType L.spf L.spc, L.fatType)
-      else .error .panic := by
+    formatChecked o t = .ok (bootOf o t L.fatType L.spf L.spc, L.fatType) := by
   obtain ⟨c, _, hspc, _, hLeq, hns, hfacts, hfrom, hmax⟩ := determineFsLayout_ok_facts hacc ht hL
   have hspfeq : L.spf = spfOf t o.bps (c / o.bps) L.fatType.bits (reservedFor L.fatType)
       (determineRootDirSectors o.rootEntries o.bps L.fatType) o.fats := by rw [hLeq]
@@ -174,8 +174,5 @@ theorem formatChecked_of_layout {o : FormatOpts} {t : Nat} {L : FsLayout}
   have esig : (bootOf o t L.fatType L.spf L.spc).bootSig = [0x55, 0xAA] := rfl
   rw [if_neg (by rw [esig]; simp), bootOf_bpb,
     validateBpb_bpbOf o t L.spf L.spc L.fatType hbps hspc hacc.fats hroot hspf1 hf32 hfit ht hfrom hmax]
-  by_cases hov : L.spf * o.bps * 8 < 4294967296
-  · rw [if_pos hov, if_pos hov]
-  · rw [if_neg hov, if_neg hov]
 
 end FatVerif.Format
